@@ -68,6 +68,9 @@ type caller struct {
 	allowLimited     bool
 	simConnect       int // 0 no, 1 client, 2 server
 	probe            bool
+	retry            *caller // called from the same task at the instant this one returned a failure
+	isRetry          bool
+	invoked          bool
 
 	inv, ret     uint64
 	invAt, retAt time.Duration
@@ -111,6 +114,9 @@ func (c *caller) describe() string {
 	if c.allowLimited {
 		s += " allow-limited"
 	}
+	if c.retry != nil {
+		s += " (on failure retried at once as " + c.retry.name() + ")"
+	}
 	return s
 }
 
@@ -153,7 +159,7 @@ var ctxGrid = []time.Duration{time.Millisecond, 30 * time.Millisecond, 250 * tim
 func run(t *testing.T, tape *simrt.Tape) *common.Outcome {
 	g := simrt.Gen{S: tape.G}
 	o := &common.Outcome{}
-	w := &world{o: o, targets: map[string]*target{}, dns: map[string]dnsEntry{}}
+	w := &world{o: o, targets: map[string]*target{}, dns: map[string]dnsEntry{}, dnsSeen: map[string]bool{}}
 
 	// ---- configuration (0 = simplest) --------------------------------------------------------
 	noise := g.Chance(1, 4)
@@ -180,9 +186,23 @@ func run(t *testing.T, tape *simrt.Tape) *common.Outcome {
 	}
 	w.qID, _ = peer.IDFromPrivateKey(keyQ)
 	w.relayID, _ = peer.IDFromPrivateKey(simhost.DetKey(30))
+	// "slow worker" stratum: the first lookup of a name of p0 takes 1 s and does not notice cancellation, two
+	// addresses hang, the per-peer cap is below the number of hanging addresses, the first caller gives up
+	// early and another one dials within the second (a dial worker outliving its callers while a new one works)
+	slowWorker := g.Chance(1, 8)
+	if slowWorker {
+		exact, allFail, latency, stall, fdCap = true, true, false, 0, 0
+		perPeerCap = 1 + g.Int(2)
+	}
 	nAddr := []int{g.Range(0, 8), g.Weighted(3, 2, 2, 1)}
+	if slowWorker && nAddr[0] > 5 {
+		nAddr[0] = 5
+	}
 	for pi := range w.ids {
 		w.peers = append(w.peers, w.genPeer(g, pi, nAddr[pi], exact, noise, allFail, ownAddr))
+	}
+	if slowWorker {
+		w.plantSlowName(g, w.peers[0])
 	}
 	nRounds := 1 + g.Int(2)
 	gap := []time.Duration{time.Second, 4 * time.Second, 6 * time.Second, 30 * time.Second}[g.Int(4)]
@@ -202,12 +222,35 @@ func run(t *testing.T, tape *simrt.Tape) *common.Outcome {
 			c.simConnect = g.Weighted(8, 1, 1)
 			c.allowLimited = g.Chance(1, 6)
 			cs = append(cs, c)
+			if g.Chance(1, 4) {
+				// the application retries at the very instant the first call failed (fresh context of the same kind)
+				rc := *c
+				rc.idx, rc.start, rc.isRetry = 10+i, 0, true
+				if g.Bool() {
+					rc.ctxKind, rc.ctxDur = 0, 0
+				}
+				c.retry = &rc
+			}
+		}
+		if slowWorker && r == 0 {
+			cs[0].peer, cs[0].start, cs[0].ctxKind, cs[0].ctxDur = 0, 0, 1+g.Int(2), ctxGrid[g.Int(3)]
+			if len(cs) == 1 {
+				c := *cs[0]
+				c.idx, c.retry = 1, nil
+				cs = append(cs, &c)
+			}
+			cs[1].peer, cs[1].start, cs[1].ctxKind, cs[1].ctxDur = 0, startGrid[2+g.Int(4)], 0, 0
 		}
 		rounds = append(rounds, cs)
-		callers = append(callers, cs...)
+		for _, c := range cs {
+			callers = append(callers, c)
+			if c.retry != nil {
+				callers = append(callers, c.retry)
+			}
+		}
 	}
-	o.Logf("security=%s exact=%v allFail=%v stall=%d latency=%v perPeerCap=%d fdCap=%d rounds=%d gap=%v keepConns=%v",
-		secu, exact, allFail, stall, latency, perPeerCap, fdCap, nRounds, gap, keepConns)
+	o.Logf("security=%s exact=%v allFail=%v stall=%d latency=%v perPeerCap=%d fdCap=%d rounds=%d gap=%v keepConns=%v slowWorker=%v",
+		secu, exact, allFail, stall, latency, perPeerCap, fdCap, nRounds, gap, keepConns, slowWorker)
 	for _, ps := range w.peers {
 		o.Logf("peer p%d peerstore: %s", ps.idx, strings.Join(ps.raw, " "))
 		for _, tg := range ps.targets {
@@ -220,7 +263,8 @@ func run(t *testing.T, tape *simrt.Tape) *common.Outcome {
 	}
 	sort.Strings(hosts)
 	for _, h := range hosts {
-		o.Logf("   dns %s -> fail=%v %v", h, w.dns[h].fail, w.dns[h].out)
+		e := w.dns[h]
+		o.Logf("   dns %s -> fail=%v %v delay=%v ignoresCancel=%v firstLookupOnly=%v", h, e.fail, e.out, e.delay, e.ignoreCtx, e.coldOnly)
 	}
 	for _, c := range callers {
 		o.Logf(" %s", c.describe())
@@ -351,61 +395,70 @@ func run(t *testing.T, tape *simrt.Tape) *common.Outcome {
 		runCallers := func(cs []*caller, bound time.Duration) bool {
 			done := make(chan struct{})
 			left := len(cs)
+			call := func(c *caller) {
+				ctx := context.Background()
+				if c.forceDirect {
+					ctx = network.WithForceDirectDial(ctx, "c05")
+				}
+				switch c.simConnect {
+				case 1:
+					ctx = network.WithSimultaneousConnect(ctx, true, "c05")
+				case 2:
+					ctx = network.WithSimultaneousConnect(ctx, false, "c05")
+				}
+				if c.allowLimited {
+					ctx = network.WithAllowLimitedConn(ctx, "c05")
+				}
+				c.dpt = network.DialPeerTimeout
+				cancel := context.CancelFunc(func() {})
+				now := simrt.Now()
+				switch c.ctxKind {
+				case 1:
+					ctx, cancel = context.WithTimeout(ctx, c.ctxDur)
+					c.hasOwnLimit, c.ownLimitAt = true, now+c.ctxDur
+				case 2:
+					ctx, cancel = context.WithCancel(ctx)
+					c.hasOwnLimit, c.ownLimitAt = true, now+c.ctxDur
+					cn := cancel
+					simrt.GoNamed(c.name()+".cancel", func() {
+						simrt.TimeSleep(c.ctxDur)
+						if !c.returned {
+							c.cancelled, c.cancelAt, c.cancelStamp = true, simrt.Now(), simrt.Stamp()
+						}
+						cn()
+					})
+				case 3:
+					ctx = network.WithDialPeerTimeout(ctx, c.ctxDur)
+					c.dpt = c.ctxDur
+				}
+				c.invoked = true
+				c.invAt, c.inv = simrt.Now(), simrt.Stamp()
+				conn, err := D.swarm.DialPeer(ctx, w.ids[c.peer])
+				c.ret, c.retAt = simrt.Stamp(), simrt.Now()
+				c.ctxErr = ctx.Err()
+				c.returned = true
+				c.err = err
+				if conn != nil {
+					c.ok = err == nil
+					c.connPeer = conn.RemotePeer()
+					c.connAddr = conn.RemoteMultiaddr().String()
+					c.connLimited = conn.Stat().Limited
+					_, err := conn.RemoteMultiaddr().ValueForProtocol(ma.P_CIRCUIT)
+					c.connProxy = err == nil
+				}
+				cancel()
+			}
 			for _, c := range cs {
 				simrt.GoNamed(c.name(), func() {
 					if c.start > 0 {
 						simrt.TimeSleep(c.start)
 					}
-					ctx := context.Background()
-					if c.forceDirect {
-						ctx = network.WithForceDirectDial(ctx, "c05")
+					call(c)
+					if c.retry != nil {
+						if !c.ok {
+							call(c.retry)
+						}
 					}
-					switch c.simConnect {
-					case 1:
-						ctx = network.WithSimultaneousConnect(ctx, true, "c05")
-					case 2:
-						ctx = network.WithSimultaneousConnect(ctx, false, "c05")
-					}
-					if c.allowLimited {
-						ctx = network.WithAllowLimitedConn(ctx, "c05")
-					}
-					c.dpt = network.DialPeerTimeout
-					cancel := context.CancelFunc(func() {})
-					now := simrt.Now()
-					switch c.ctxKind {
-					case 1:
-						ctx, cancel = context.WithTimeout(ctx, c.ctxDur)
-						c.hasOwnLimit, c.ownLimitAt = true, now+c.ctxDur
-					case 2:
-						ctx, cancel = context.WithCancel(ctx)
-						c.hasOwnLimit, c.ownLimitAt = true, now+c.ctxDur
-						cn := cancel
-						simrt.GoNamed(c.name()+".cancel", func() {
-							simrt.TimeSleep(c.ctxDur)
-							if !c.returned {
-								c.cancelled, c.cancelAt, c.cancelStamp = true, simrt.Now(), simrt.Stamp()
-							}
-							cn()
-						})
-					case 3:
-						ctx = network.WithDialPeerTimeout(ctx, c.ctxDur)
-						c.dpt = c.ctxDur
-					}
-					c.invAt, c.inv = simrt.Now(), simrt.Stamp()
-					conn, err := D.swarm.DialPeer(ctx, w.ids[c.peer])
-					c.ret, c.retAt = simrt.Stamp(), simrt.Now()
-					c.ctxErr = ctx.Err()
-					c.returned = true
-					c.err = err
-					if conn != nil {
-						c.ok = err == nil
-						c.connPeer = conn.RemotePeer()
-						c.connAddr = conn.RemoteMultiaddr().String()
-						c.connLimited = conn.Stat().Limited
-						_, err := conn.RemoteMultiaddr().ValueForProtocol(ma.P_CIRCUIT)
-						c.connProxy = err == nil
-					}
-					cancel()
 					left--
 					if left == 0 {
 						close(done)
@@ -421,7 +474,7 @@ func run(t *testing.T, tape *simrt.Tape) *common.Outcome {
 				c.Close()
 			}
 		}
-		bound := 80 * time.Second // > latest start (5.25 s) + dial-peer timeout (60 s) + slack
+		bound := 140 * time.Second // > latest start (5.25 s) + 2 x dial-peer timeout (first call and retry) + slack
 		if timeless {
 			bound = 24 * time.Hour
 		}
@@ -569,6 +622,15 @@ func run(t *testing.T, tape *simrt.Tape) *common.Outcome {
 		return o
 	}
 
+	{
+		kept := callers[:0]
+		for _, c := range callers {
+			if !c.isRetry || c.invoked {
+				kept = append(kept, c)
+			}
+		}
+		callers = kept
+	}
 	// ---- history ---------------------------------------------------------------------------------
 	for _, r := range w.recs {
 		o.Logf("dial %s", r)
@@ -598,7 +660,7 @@ func run(t *testing.T, tape *simrt.Tape) *common.Outcome {
 	// (1) every caller returns
 	for _, c := range callers {
 		if !c.returned {
-			o.Violate("C05/caller-never-returned", "%s (%s) had not returned %v after the round started; stuck=%v", c.name(), c.describe(), 80*time.Second, res.Stuck)
+			o.Violate("C05/caller-never-returned", "%s (%s) had not returned %v after the round started; stuck=%v", c.name(), c.describe(), 140*time.Second, res.Stuck)
 		}
 	}
 	if timedOut || res.Stuck || !finished {
@@ -611,6 +673,7 @@ func run(t *testing.T, tape *simrt.Tape) *common.Outcome {
 		checkCaller(o, w, c, callers, exact, timeless)
 	}
 	checkLiveness(o, w, callers, exact && allFail && !timeless && !latency, fdCap)
+	checkAnswered(o, w, callers, exact && !timeless)
 	checkRecords(o, w, callers, perPeerCap, fdCap, timeless)
 
 	// (7) residue
@@ -647,15 +710,23 @@ func run(t *testing.T, tape *simrt.Tape) *common.Outcome {
 			o.Fault("io-" + k)
 		}
 	}
+	drawnTCP := map[string]bool{}
+	for _, ps := range w.peers {
+		for _, tg := range ps.targets {
+			if tg.kind == tTCP {
+				drawnTCP[netKey(tg.ip, tg.port)] = true
+			}
+		}
+	}
 	for _, d := range dialsNet {
-		if d.Outcome == "refused" || d.Outcome == "blackholed" {
+		if drawnTCP[d.To] && (d.Outcome == "refused" || d.Outcome == "blackholed") {
 			o.Fault("tcp-" + d.Outcome)
 		}
 	}
 	for _, r := range w.recs {
 		tg := w.targets[r.addr]
-		if tg == nil {
-			continue
+		if tg == nil || w.peers[tg.peer].target(r.addr) == nil {
+			continue // unknown address or an address of the token probes
 		}
 		if r.kind != tTCP && r.end != 0 {
 			o.Fault("stub-" + scriptName[tg.script])
@@ -831,32 +902,57 @@ func checkCaller(o *common.Outcome, w *world, c *caller, callers []*caller, exac
 	}
 }
 
-// (3b) bounded liveness: when every script fails, a caller whose deadline is far enough gets the
-// DialError before its deadline. Asserted only when the FD cap cannot bind (waiting for another
-// peer's FD holders is legitimate and not bounded by this peer's scripts).
+// dnsSlack bounds how long the peer's dial worker can be busy resolving names instead of serving
+// requests: every request resolves every name of the peer once.
+func dnsSlack(w *world, peer, nCallers int) time.Duration {
+	var d time.Duration
+	for _, e := range w.dns {
+		if e.peer == peer {
+			d += e.delay
+		}
+	}
+	return time.Duration(nCallers) * d
+}
+
+// (3b) bounded liveness: when every script fails, a caller whose limit is far enough gets the
+// DialError before its limit. Bound: ranking delays (<= 1 s per address) + name resolution + the
+// time other dials can keep the tokens this caller's dials wait for. Dials of a generation whose
+// callers have all left end at once (every failing script here honours its context), so when the
+// FD cap cannot bind only the peer's own addresses count, each once; when it can bind, every dial
+// of every generation of the run may be ahead in the (work-conserving, FIFO) queues: at most one
+// generation per caller, each address once per generation.
 func checkLiveness(o *common.Outcome, w *world, callers []*caller, enabled bool, fdCap int) {
 	if !enabled {
 		return
 	}
 	fds := 0
+	var all time.Duration
 	for _, ps := range w.peers {
 		for _, tg := range ps.targets {
+			all += tg.maxDur()
 			if tg.fd() {
 				fds++
 			}
 		}
 	}
-	if fdCap > 0 && fdCap < fds {
-		return
+	n := 0
+	for _, c := range callers {
+		if !c.probe {
+			n++
+		}
 	}
 	for _, c := range callers {
 		if c.probe || !c.returned || c.ok {
 			continue
 		}
 		ps := w.peers[c.peer]
-		bound := time.Duration(len(ps.targets)+2) * time.Second // ranking delays are at most 1 s per step
-		for _, tg := range ps.targets {
-			bound += tg.maxDur()
+		bound := time.Duration(len(ps.targets)+2)*time.Second + dnsSlack(w, c.peer, n)
+		if fdCap > 0 && fdCap < fds {
+			bound += time.Duration(n) * all
+		} else {
+			for _, tg := range ps.targets {
+				bound += tg.maxDur()
+			}
 		}
 		if c.limitAt() <= c.invAt+bound+time.Second {
 			continue
@@ -864,8 +960,61 @@ func checkLiveness(o *common.Outcome, w *world, callers []*caller, enabled bool,
 		o.Probe("liveness-asserted")
 		var de *swarm.DialError
 		if !errors.As(c.err, &de) || c.retAt > c.invAt+bound {
-			o.Violate("C05/all-scripts-fail-but-no-dial-error-in-time", "%s: every address of p%d fails within its script (sum of script durations and ranking delays <= %v), the caller's limit is %v after the invocation, yet it returned %v after with: %v",
-				c.name(), c.peer, bound, c.limitAt()-c.invAt, c.retAt-c.invAt, c.err)
+			o.Violate("C05/all-scripts-fail-but-no-dial-error-in-time", "%s: every address of every peer fails within its script (ranking delays, resolution and script durations that can be ahead of this caller sum to <= %v), the caller's limit is %v after the invocation, yet it returned %v after with: %v",
+				c.name(), bound, c.limitAt()-c.invAt, c.retAt-c.invAt, c.err)
+		}
+	}
+}
+
+// (3c) a caller is answered when its last address has failed: if every eligible address has a
+// failed dial that certainly belongs to the generation the caller is in (started at a later
+// virtual instant than the invocation, shared context alive) the DialError is due at the end of
+// the last of them; waiting on until the own limit is a lost answer.
+func checkAnswered(o *common.Outcome, w *world, callers []*caller, enabled bool) {
+	if !enabled {
+		return
+	}
+	n := 0
+	for _, c := range callers {
+		if !c.probe {
+			n++
+		}
+	}
+	for _, c := range callers {
+		if c.probe || !c.returned || c.ok {
+			continue
+		}
+		ps := w.peers[c.peer]
+		var last time.Duration
+		complete, considered := true, 0
+		for _, tg := range ps.targets {
+			if c.forceDirect && tg.kind == tCircuit {
+				continue
+			}
+			considered++
+			found := false
+			for _, r := range w.recs {
+				if r.peer == c.peer && r.addr == tg.key && r.end != 0 && !r.cancelledAtStart && r.startAt > c.invAt && r.end < c.ret &&
+					(!r.ok || tg.script == sLie) && !errors.Is(r.ctxErrAtEnd, context.Canceled) {
+					found = true
+					if r.endAt > last {
+						last = r.endAt
+					}
+				}
+			}
+			if !found {
+				complete = false
+				break
+			}
+		}
+		if !complete || considered == 0 {
+			continue
+		}
+		o.Probe("answer-due-asserted")
+		due := last + dnsSlack(w, c.peer, n) + time.Second
+		if c.retAt > due {
+			o.Violate("C05/all-addresses-failed-but-caller-kept-waiting", "%s (invoked %v): every eligible address of p%d had a failed dial of the live generation, the last one ended at %v, yet the caller returned only at %v with: %v",
+				c.name(), c.invAt, c.peer, last, c.retAt, c.err)
 		}
 	}
 }
